@@ -193,16 +193,26 @@ func (store *Store) Restore() error {
 
 	r := resp.NewReader(store.rw)
 	database := 0
+	// Number of bytes of the log that have been read as complete, well-formed records.
+	var restored int64
 
 	for {
 		value, n, err := r.ReadValue()
-		if err != nil && err != io.EOF {
-			return err
+		if err != nil && (err != io.EOF || n > 0) {
+			// The rest of the log is not a complete record (e.g. the process died while the last one
+			// was being written). Keep everything up to the last complete record and cut the rest off,
+			// so that the records appended from now on follow valid data and can be read next time.
+			log.Printf("restore aof: dropping incomplete data after %d bytes: %v\n", restored, err)
+			if terr := store.rw.Truncate(restored); terr != nil {
+				return fmt.Errorf("restore aof: truncate incomplete tail: %v", terr)
+			}
+			break
 		}
 		if n == 0 {
 			// Break out when there are no more bytes to read.
 			break
 		}
+		restored += int64(n)
 
 		command, err := value.MarshalRESP()
 		if err != nil {
